@@ -56,8 +56,15 @@ def run(model, rep, tier):
     ok = False
     if lp:
         g = unparse(lp[0].target)
-        ok = bool(pattern.find(lp[0], '_N_gi, _N_gf, _N_gdx = (self.stateindex(_N_PSi.g(self.crys, self.chem, _N_g)), '
-                                     'self.stateindex(_N_PSf.g(self.crys, self.chem, _N_g)), self.crys.g_direc(_N_g, _N_dx))', _N_g=g, _N_dx=dx_))
+        # what is appended as the image, with the locals bound once written out: both states and the direction are
+        # transformed by the loop's own g (the initial and the final state being different objects)
+        from ._common import resolve_local
+        for b in pattern.find(lp[0], '_N_l.append(((_N_gi, _N_gf), _N_gdx))'):
+            img = resolve_local(sj, b['_node'].value.args[0], depth=1)
+            for m in pattern.find(img, '((self.stateindex(_E_PSi.g(self.crys, self.chem, _N_g)), self.stateindex(_E_PSf.g(self.crys, self.chem, _N_g))), '
+                                       'self.crys.g_direc(_N_g, _N_dx))', 'expr', _N_g=g, _N_dx=dx_):
+                if m['_node'] is img and m['_E_PSi'] != m['_E_PSf']:
+                    ok = True
     rep.ob('reversal-pairing', mod, lp[0] if lp else sj, 'symmequivjumplist: images of (initial, final, dx) under every g of crys.G', ok,
            '' if ok else 'class is not closed under the space group', engine='flow', qual='StarSet.symmequivjumplist')
     # ---- builders
